@@ -223,6 +223,17 @@ impl Ignore {
                 Arc::downgrade(&ig_arc),
             );
         }
+        // The parent matchers may come from the cache shared by all roots of
+        // a walk, in which case they carry the absolute base path of the root
+        // they were first built for. Matchers built below the one returned
+        // here inherit its base path, so make sure it is this root's.
+        if ig.0.is_absolute_parent
+            && ig.0.absolute_base.as_ref() != Some(&absolute_base)
+        {
+            let mut inner = (*ig.0).clone();
+            inner.absolute_base = Some(absolute_base);
+            ig = Ignore(Arc::new(inner));
+        }
         (ig, errs.into_error_option())
     }
 
